@@ -12,7 +12,7 @@ from .core import Site, op_const, op_place
 
 class Taint:
     def __init__(self, prog, source_field, source_call=None, sanitizers=(), declassifiers=(), scope=None,
-                 param_sources=None, no_propagate=None, carrier_fields=None, clean_type=None):
+                 param_sources=None, no_propagate=None, carrier_fields=None, clean_type=None, agg_sink=None):
         self.P = prog
         self.source_field = source_field          # (owner, name) -> label | None
         self.source_call = source_call or (lambda site: None)
@@ -22,6 +22,7 @@ class Taint:
         self.no_propagate = no_propagate or (lambda site: False)
         self.carrier = carrier_fields or (lambda adt, field: False)   # declared secret slots: storing there does not taint the whole value
         self.clean_type = clean_type or (lambda ty: False)
+        self.agg_sink = agg_sink or (lambda adt: False)   # aggregates that are sinks: reported by the rule, taint stops there
         self.t = defaultdict(dict)                 # fn path -> {local: label}
         self.env = defaultdict(dict)               # closure / coroutine path -> {upvar index: label}
         self.tuple_only = defaultdict(set)         # locals tainted only per tuple field
@@ -50,6 +51,8 @@ class Taint:
                         return lab
                 break
         pr = pl.get('p', [])
+        if pr and isinstance(pr[0], dict) and 'dc' in pr[0] and (pl['l'], 'v:' + pr[0]['dc']) in self.t[fpath]:
+            return self.t[fpath][(pl['l'], 'v:' + pr[0]['dc'])]
         if pr and isinstance(pr[0], dict) and 'f' in pr[0] and (pl['l'], pr[0]['f']) in self.t[fpath]:
             return self.t[fpath][(pl['l'], pr[0]['f'])]
         if pr and isinstance(pr[0], dict) and 'f' in pr[0] and pl['l'] in self.tuple_only.get(fpath, ()):
@@ -57,7 +60,7 @@ class Taint:
         if pl['l'] in self.tuple_only.get(fpath, ()):
             # the whole tuple is used (moved into a container, passed to a call): any tainted field taints it
             for key, lb in self.t[fpath].items():
-                if isinstance(key, tuple) and key[0] == pl['l']:
+                if isinstance(key, tuple) and key[0] == pl['l'] and not isinstance(key[1], str):
                     return lb
         return self.t[fpath].get(pl['l'])
 
@@ -124,7 +127,7 @@ class Taint:
         if l not in self.t[fpath]:
             self.t[fpath][l] = label
             if isinstance(l, tuple):
-                if base not in self.t[fpath]:
+                if base not in self.t[fpath] and not isinstance(l[1], str):
                     self.tuple_only[fpath].add(base)
             else:
                 self.tuple_only[fpath].discard(base)
@@ -160,7 +163,13 @@ class Taint:
                     if pl0 is not None and 'p' not in pl0:
                         for key, lb in list(self.t[fp].items()):
                             if isinstance(key, tuple) and key[0] == pl0['l']:
-                                ch |= self._mark(fp, (st['d']['l'], key[1]), lb)
+                                if isinstance(key[1], str):
+                                    k2 = (st['d']['l'], key[1])
+                                    if k2 not in self.t[fp]:
+                                        self.t[fp][k2] = lb
+                                        ch = True
+                                else:
+                                    ch |= self._mark(fp, (st['d']['l'], key[1]), lb)
                 if rv['k'] == 'agg' and rv.get('ak') == 'tuple' and 'p' not in st['d']:
                     for i, o in enumerate(rv['a']):
                         l2 = self.op_label(fp, o)
@@ -169,6 +178,8 @@ class Taint:
                     continue
                 if rv['k'] == 'agg' and rv.get('ak') == 'adt':
                     lab = None
+                    if self.agg_sink(rv['adt']):
+                        continue
                     for fname, o in zip(rv.get('fields', []), rv['a']):
                         if self.carrier(rv['adt'], fname):
                             continue
@@ -183,8 +194,32 @@ class Taint:
             lab = next((x for x in labs if x), None)
             src = self.source_call(s)
             if src:
-                ch |= self._mark(fp, s.dest['l'], src)
+                if isinstance(src, tuple) and src[0] == 'variant':
+                    # only one variant of the result carries the taint (e.g. the Err of a typed parse)
+                    key = (s.dest['l'], 'v:' + src[1])
+                    if key not in self.t[fp]:
+                        self.t[fp][key] = src[2]
+                        ch = True
+                else:
+                    ch |= self._mark(fp, s.dest['l'], src)
                 continue
+            # combinators that expose the Err of a variant-tainted Result
+            if s.args and re.search(r'core::result::Result::<T, E>::(map_err|err|unwrap_err|expect_err|unwrap_or_else|or_else)$', s.callee):
+                pl0 = op_place(s.args[0])
+                if pl0 is not None and 'p' not in pl0 and (pl0['l'], 'v:Err') in self.t[fp]:
+                    lbv = self.t[fp][(pl0['l'], 'v:Err')]
+                    if s.name in ('map_err', 'or_else'):
+                        key = (s.dest['l'], 'v:Err')
+                        if key not in self.t[fp]:
+                            self.t[fp][key] = lbv
+                            ch = True
+                    else:
+                        ch |= self._mark(fp, s.dest['l'], lbv)
+                    # the closure receives the error as its argument
+                    if len(s.args) > 1:
+                        o = f.origin(s.args[1])
+                        if o[0] == 'rv' and o[1].get('ak') == 'closure' and o[1].get('def') in self.P.fns:
+                            ch |= self._mark(o[1]['def'], 2, lbv)
             if self.is_san(s.callee) or self.is_decl(s.callee) or self.no_propagate(s):
                 continue
             callee = self.P.fns.get(s.callee)
